@@ -27,7 +27,10 @@ def parse_search_blocks(lines):
     out = []
     cur_info = []
     for ln in lines:
-        if ln.startswith("info "):
+        if ln.startswith("!!") or ln.endswith(" panic"):
+            # (a panic inside the pv walk lands at the end of the unfinished `info pv` line)
+            out.append({"kind": "crash", "raw": ln[-200:]})
+        elif ln.startswith("info "):
             cur_info.append(ln)
         elif ln.startswith("best "):
             tag, kv = parse_kv(ln)
@@ -351,6 +354,15 @@ def stop_scripts(tier, seed):
                 lines.append("cleartable")
             lines.append("search %d %d 0" % (d + (1 if warm and rng.chance(1, 2) else 0), N))
         blocks.append(lines)
+    # games with special last moves (promotion captures, en passant, forced perpetual check with the repetition filter active)
+    for j, (root, moves) in enumerate(positions.SCRIPTED):
+        lines = ["# x%d" % j, "cleartable", "new " + root]
+        for m in moves:
+            lines.append("hist " + m)
+        lines.append("obs")
+        for N in (0, 1, 2, 5, 11, 40, 200, -1):
+            lines += ["cleartable", "search 3 %d 0" % N]
+        blocks.append(lines)
     return blocks
 
 
@@ -456,6 +468,19 @@ def limit_scripts(tier, seed):
     deep = ["4k3/8/8/8/8/8/8/4K3 w - - 0 1", "8/8/8/8/8/k7/p7/K7 b - - 0 1", "8/5k2/8/8/8/8/2K5/8 b - - 0 1",
             "4k3/8/p1p1p1p1/PpPpPpPp/1P1P1P1P/8/8/4K3 w - - 0 1", "k7/2Q5/1K6/8/8/8/8/8 b - - 0 1", "7k/8/8/8/8/8/8/K7 w - - 0 1"]
     polls = 60000 if tier == "quick" else 600000
+    guard = 400
+    try:
+        m = re.search(r"GAME_LENGTH_GUARD : Z := (\d+)", open(os.path.join(lib.ROOT, "coq", "Gen", "Consts.v")).read())
+        guard = int(m.group(1))
+    except Exception:
+        pass
+    for j, (f, cyc) in enumerate([("4k3/8/p1p1p1p1/PpPpPpPp/1P1P1P1P/8/8/4K3 w - - 0 1", ["e1d1", "e8d8", "d1e1", "d8e8"]),
+                                  ("7k/8/8/8/8/8/8/K7 w - - 0 1", ["a1b1", "h8g8", "b1a1", "g8h8"])]):
+        lines = ["# g%d" % j, "cleartable", "new " + f]
+        for k in range(max(10, min(guard, 1100) - 2)):
+            lines.append("hist " + cyc[k % 4])
+        lines += ["obs", "search 0 %d 0" % (polls // 2)]
+        blocks.append(lines)
     for j, f in enumerate(deep):
         blocks.append(["# u%d" % j, "cleartable", "new " + f, "obs", "search 0 %d 0" % polls])
     return blocks
@@ -476,6 +501,14 @@ def check_C08(chk):
     nfail = 0
     for blk in blocks:
         gid = blk[0][2:]
+        a, b = impl.get(gid, []), implc.get(gid, [])
+        if a != b and nfail < 5 and not any("!!" in l or l.endswith(" panic") for l in a + b):
+            k = next((j for j in range(min(len(a), len(b))) if a[j] != b[j]), min(len(a), len(b)))
+            nfail += 1
+            chk.violation("the release build and the build with bounds and overflow checks give different search output: '%s' vs '%s'" % (
+                a[k][:150] if k < len(a) else "<end>", b[k][:150] if k < len(b) else "<end>"),
+                {"script": blk[1:6] + ["..."] + blk[-3:], "release": a[k] if k < len(a) else None, "checked": b[k] if k < len(b) else None,
+                 "kind": "state corrupted during the search (an unchecked access or arithmetic went out of range)"})
         for which, run in (("release", impl), ("checked", implc)):
             limits = [int(l.split()[1]) for l in blk if l.startswith("search ")]
             k = 0
@@ -566,8 +599,16 @@ WINDOW_ROOTS = SMALL_ROOTS + [
     "7n/pp3pkp/8/8/8/8/PP3PKP/7N w - - 0 1", "n6k/8/8/8/8/8/8/N6K w - - 0 1", "b6k/8/8/8/8/8/8/B6K b - - 0 1",
     "r6k/8/8/8/8/8/8/R6K w - - 0 1", "q6k/8/8/8/8/8/8/Q6K b - - 0 1", "4k3/pppppppp/8/8/8/8/PPPPPPPP/4K3 w - - 0 1",
     "1n2k1n1/8/8/8/8/8/8/1N2K1N1 w - - 0 1", "2b1kb2/8/8/8/8/8/8/2B1KB2 b - - 0 1",
+    # promotions where the queen is not the best piece (stalemate tricks, pawn races)
+    "8/5P1k/8/6K1/8/8/8/8 b - - 0 1", "6K1/5P2/8/5k2/3Q4/8/8/8 b - - 0 1", "8/1P6/8/5K2/8/8/6kp/8 w - - 0 1",
+    "8/6kP/8/5K2/8/8/1p6/8 b - - 0 1", "7k/4P3/6K1/8/8/8/8/8 b - - 0 1", "8/2P5/8/8/8/4k3/p7/2K5 b - - 0 1",
+    "8/5P1k/8/6K1/8/8/8/8 w - - 0 1", "8/8/8/8/6k1/8/5p1K/8 b - - 0 1", "6K1/5P2/8/5k2/3Q4/8/8/8 w - - 0 1",
+    "8/1P6/8/5K2/8/8/6kp/8 b - - 0 1", "k7/2P5/1K6/8/8/8/8/8 w - - 0 1", "8/8/8/8/8/1k6/2p5/K7 b - - 0 1",
+    # the capture-only extension lets a queen retake a new queen but not a new rook: the rook promotion is the best move of the node
+    "1Q6/8/8/5K2/8/8/6kp/8 b - - 0 1", "8/6KP/8/8/5k2/8/8/1q6 w - - 0 1", "3Q4/8/8/8/8/2K5/kp6/8 b - - 0 1", "8/PK6/8/8/8/8/6kp/8 b - - 0 1",
 ]
-DELTAS = [-120, -60, -56, -55, -51, -50, -46, -45, -30, -11, -10, -6, -5, -4, -1, 0, 1, 4, 5, 6, 10, 11, 30, 45, 46, 50, 51, 55, 56, 60, 120]
+PROMOTION_ENDINGS = 16   # the last entries of WINDOW_ROOTS: searched to remaining depth 3 in the quick tier as well
+DELTAS = [-120, -60, -56, -55, -51, -50, -46, -45, -10, -6, -5, -4, -1, 0, 1, 4, 5, 10, 50, 55, 120]
 
 
 def window_run(chk, status):
@@ -575,7 +616,7 @@ def window_run(chk, status):
     placed around the node's exhaustive value, in the real code and in the extracted model; the result must be
     identical and must be bound-consistent with the reference value (SpecR of Proofs/AlphaBeta.v)."""
     rng = Rng(chk.seed * 47 + 37)
-    n = 36 if chk.tier == "quick" else 400
+    n = len(WINDOW_ROOTS) if chk.tier == "quick" else 400
     key = "win-%s-%d" % (chk.tier, chk.seed)
     pre = []
     for i in range(n):
@@ -584,8 +625,11 @@ def window_run(chk, status):
         for _ in range(rng.below(8) if i >= len(WINDOW_ROOTS) else 0):
             lines.append("pick %d" % rng.below(1 << 40))
         pre.append(lines)
-    kinds = [("q", 0), ("d", 1), ("n", 2)] + ([("n", 3)] if chk.tier == "thorough" else [])
-    ph1 = [b + ["obs"] + ["refn %d" % r for (_, r) in kinds] for b in pre]
+    kinds = [("q", 0), ("d", 1), ("n", 2), ("n", 3)]
+    deep_from = len(WINDOW_ROOTS) - PROMOTION_ENDINGS        # remaining depth 3 everywhere in the thorough tier, in the quick tier for the promotion endings
+    def kinds_of(bi):
+        return [k for k in kinds if k[1] < 3 or chk.tier == "thorough" or deep_from <= bi < len(WINDOW_ROOTS)]
+    ph1 = [b + ["obs"] + ["refn %d" % r for (_, r) in kinds_of(bi)] for bi, b in enumerate(pre)]
     refs = cached_run("win-ref", DRIVER, ph1, key, timeout=1800)
     blocks = []
     info = {}
@@ -594,11 +638,12 @@ def window_run(chk, status):
         out = refs.get(gid, [])
         vals = [parse_kv(l)[1] for l in out if l.startswith("refn ")]
         fen = next((fen_of_obs(parse_kv(l)[1]) for l in out if l.startswith("obs ")), None)
-        if len(vals) != len(kinds) or fen is None:
+        bi = int(gid[1:])
+        if len(vals) != len(kinds_of(bi)) or fen is None:
             continue
         lines = list(b)
         wins = []
-        for (kind, rem), kv in zip(kinds, vals):
+        for (kind, rem), kv in zip(kinds_of(bi), vals):
             v = int(kv["v"])
             if kv.get("blocked") == "1" or abs(v) > MATE_BAND:
                 continue
@@ -768,6 +813,109 @@ def mate_candidates(tier, seed):
     return sorted(set(out))
 
 
+# unique-key mates in two (rook or queen endings; the keys are recomputed by the solver on every run)
+HISTORY_ENDINGS = [
+    "8/8/8/8/2R5/k7/3K4/8 w - - 0 1", "k7/8/3K4/5Q2/8/8/8/8 w - - 0 1", "k7/8/8/K7/8/8/6R1/8 w - - 0 1", "8/8/8/1R6/8/1K6/8/2k5 w - - 0 1",
+    "8/8/1R6/8/2K5/8/8/2k5 w - - 0 1", "4K2k/8/8/8/8/8/8/2Q5 w - - 0 1", "8/8/8/6R1/8/8/k7/2K5 w - - 0 1", "8/8/8/8/8/5K2/1R6/7k w - - 0 1",
+    "8/1Q6/8/8/3K4/8/8/k7 w - - 0 1", "8/8/7R/8/8/2K5/k7/8 w - - 0 1", "8/8/8/1R6/3K4/8/8/2k5 w - - 0 1", "7k/8/4K3/8/8/8/8/2Q5 w - - 0 1",
+    "8/8/8/8/2K3Q1/8/8/k7 w - - 0 1", "6k1/8/8/4K3/8/7Q/8/8 w - - 0 1",
+]
+# the repaired defect (fix a0a0e3f): the only mating move equals the move made four plies earlier although no position is
+# repeated - a capture, and a quiet move by a second rook after the first was taken on the target square
+HISTORY_MATE_IN_ONE = [("5rk1/6pp/8/8/8/8/5r2/K3Q3 b - - 0 1", "f8e8 e1e8 f2f8 e8e1 f8e8"),
+                       ("6k1/7p/8/3R2R1/8/8/B7/K7 b - - 0 1", "g8h8 g5g8 h8g8 d5g5 g8h8")]
+
+
+def _sq(i):
+    return "abcdefgh"[i % 8] + str(i // 8 + 1)
+
+
+def _place(fen):
+    rows = fen.split()[0].split("/")
+    board = {}
+    for ri, row in enumerate(rows):
+        f = 0
+        for ch in row:
+            if ch.isdigit():
+                f += int(ch)
+            else:
+                board[(7 - ri) * 8 + f] = ch
+                f += 1
+    return board
+
+
+def _fen_of(board, side):
+    rows = []
+    for r in range(7, -1, -1):
+        row, e = "", 0
+        for f in range(8):
+            p = board.get(r * 8 + f)
+            if p:
+                row += (str(e) if e else "") + p
+                e = 0
+            else:
+                e += 1
+        rows.append(row + (str(e) if e else ""))
+    return "/".join(rows) + " %s - - 0 1" % side
+
+
+def history_mates(chk, key):
+    """games a m b n a (two moves and their reversals, then the first again) that end in a mate-in-two ending: the root's
+    repetition filter fires on m. Everything is validated by the RULES (speclast / specmate). Returns a list of
+    (fen0, moves, target_fen, keep, m)."""
+    b0 = [["# t%d" % i, "speclast | " + t, "specmate 2 | " + t] for i, t in enumerate(HISTORY_ENDINGS)]
+    r0 = cached_run("hist-spec0", SPECDRIVER, b0, key, timeout=900)
+    cands = []
+    for i, t in enumerate(HISTORY_ENDINGS):
+        ls = r0.get("t%d" % i, [])
+        if len(ls) < 2 or not ls[0].startswith("specply 0 ") or "forced=1" not in ls[1]:
+            continue
+        legal = [m for m in parse_kv(ls[0])[1].get("legal", "").split(",") if m]
+        keep = parse_kv(ls[1])[1]["keep"].split(",")
+        board = _place(t)
+        y = next(sq for sq, pc in board.items() if pc == "k")
+        for m in legal:
+            for dx in (-1, 0, 1):
+                for dy in (-1, 0, 1):
+                    xf, xr = y % 8 + dx, y // 8 + dy
+                    if (dx, dy) == (0, 0) or not (0 <= xf < 8 and 0 <= xr < 8):
+                        continue
+                    x = xr * 8 + xf
+                    if x in board:
+                        continue
+                    b2 = dict(board)
+                    del b2[y]
+                    b2[x] = "k"
+                    a = _sq(x) + _sq(y)
+                    mv = [a, m, _sq(y) + _sq(x), m[2:4] + m[0:2], a]
+                    cands.append((_fen_of(b2, "b"), " ".join(mv), t, keep, m))
+    b1 = [["# h%d" % i, "speclast %s | %s" % (mv, f0)] for i, (f0, mv, t, keep, m) in enumerate(cands)]
+    r1 = cached_run("hist-spec1", SPECDRIVER, b1, key, timeout=900)
+    good = []
+    per = {}
+    for i, c in enumerate(cands):
+        ls = r1.get("h%d" % i, [])
+        if not ls or not ls[0].startswith("specply 5 sane=1"):
+            continue
+        f0, mv, t, keep, m = c
+        if parse_kv(ls[0])[1].get("render", "").replace("_", " ").split(" ")[:2] != t.split(" ")[:2]:
+            continue
+        kind = (t, m in keep)
+        per[kind] = per.get(kind, 0) + 1
+        if per[kind] <= (2 if chk.tier == "quick" else 6):
+            good.append(c)
+    return good
+
+
+STALEMATES = ["7k/5Q2/6K1/8/8/8/8/8 b - - 0 1", "k7/2Q5/1K6/8/8/8/8/8 b - - 0 1", "5k2/5P2/5K2/8/8/8/8/8 b - - 0 1", "8/8/8/8/8/5k2/5p2/5K2 w - - 0 1",
+              "K7/8/1q6/8/8/8/8/5k2 w - - 0 1", "7K/8/5n1k/8/8/8/8/6r1 w - - 0 1"]
+SESSION_MATES = [
+    "r1b2k1r/ppp1bppp/8/1B1Q4/5q2/2P5/PPP2PPP/R3R1K1 w - - 1 1", "1rb4r/pkPp3p/1b1P3n/1Q6/N3Pp2/8/P1P3PP/7K w - - 1 1",
+    "r1bq2r1/b4pk1/p1pp1p2/1p2pP2/1P2P1PB/3P4/1PPQ2P1/R3K2R w - - 0 1", "5rkr/pp2Rp2/1b1p1Pb1/3P2Q1/2n3P1/2p5/P4P2/4R1K1 w - - 1 1",
+    "4kb1r/p2n1ppp/4q3/4p1B1/4P3/1Q6/PPP2PPP/2KR4 w k - 1 1",
+]
+
+
 def check_C10(chk):
     status, broken = common_front(chk)
     if not status.get("harness_release"):
@@ -811,15 +959,49 @@ def check_C10(chk):
         gid = "d%d" % i
         blocks.append(["# " + gid, "cleartable", "new " + f, "search 3 -1 0", "search 0 -1 0"])
         expect[gid] = ("dead", f, [], 3)
+    # checkmated roots reached by playing the mating move, and stalemated roots
+    for i, (f, keep) in enumerate(mate1):
+        gid = "e%d" % i
+        blocks.append(["# " + gid, "cleartable", "new " + f, "hist " + keep[0], "search 3 -1 0", "search 0 -1 0"])
+        expect[gid] = ("dead", "%s after %s (checkmate)" % (f, keep[0]), [], 3)
+    for i, f in enumerate(STALEMATES):
+        gid = "s%d" % i
+        blocks.append(["# " + gid, "cleartable", "new " + f, "search 3 -1 0", "search 0 -1 0"])
+        expect[gid] = ("dead", f + " (stalemate)", [], 3)
+    # (d) the same positions at the end of a game record on which the root's repetition filter fires
+    hist = history_mates(chk, key)
+    hstats = {"filtered_move_is_key": 0, "filtered_move_is_other": 0, "mate_in_one_records": 0}
+    for i, (f0, mv, t, keep, m) in enumerate(hist):
+        for d in (5, 6):
+            gid = "h%d_%d" % (i, d)
+            blocks.append(["# " + gid, "cleartable", "new " + f0] + ["hist " + x for x in mv.split()] + ["search %d -1 0" % d])
+            cls = "repetition_filter_removes_key" if keep == [m] else None
+            expect[gid] = ("forced mate in two", "%s (reached by '%s' from %s)" % (t, mv, f0), keep, d, cls)
+        hstats["filtered_move_is_key" if m in keep else "filtered_move_is_other"] += 1
+    for i, (f0, mv) in enumerate(HISTORY_MATE_IN_ONE):
+        sp = run_blocks(SPECDRIVER, [["# k", "speclast %s | %s" % (mv, f0)]], nshards=1).get("k", [])
+        rend = parse_kv(sp[0])[1].get("render", "").replace("_", " ") if sp and sp[0].startswith("specply 5 sane=1") else None
+        if rend is None:
+            continue
+        t = " ".join(rend.split(" ")[:4]) + " 0 1"
+        sm = run_blocks(SPECDRIVER, [["# k", "specmate 1 | " + t]], nshards=1).get("k", [])
+        if not sm or "forced=1" not in sm[0]:
+            continue
+        hstats["mate_in_one_records"] += 1
+        for d in (3, 5):
+            gid = "c%d_%d" % (i, d)
+            blocks.append(["# " + gid, "cleartable", "new " + f0] + ["hist " + x for x in mv.split()] + ["search %d -1 0" % d])
+            expect[gid] = ("mate in one", "%s (reached by '%s' from %s)" % (t, mv, f0), parse_kv(sm[0])[1]["keep"].split(","), d, None)
     impl = cached_run("mate-impl", HARNESS, blocks, key, timeout=1200)
     model = cached_run("mate-model", DRIVER, blocks, key, timeout=3000) if status.get("driver") else {}
     dis = diff_runs(blocks, impl, model) if status.get("driver") else []
-    stats = {"candidates": len(cands), "sane": len(sane), "mate_in_one": len(mate1), "mate_in_two": len(mate2), "dead_roots": len(dead),
-             "stopped_by_itself_on_mate": 0}
+    stats = {"candidates": len(cands), "sane": len(sane), "mate_in_one": len(mate1), "mate_in_two": len(mate2), "dead_roots": len(dead) + len(mate1) + len(STALEMATES),
+             "stopped_by_itself_on_mate": 0, "game_records_with_repetition_filter": hstats}
     nfail = 0
     for blk in blocks:
         gid = blk[0][2:]
-        what, f, keep, d = expect[gid]
+        what, f, keep, d = expect[gid][:4]
+        cls = expect[gid][4] if len(expect[gid]) > 4 else None
         for ev in parse_search_blocks(impl.get(gid, [])):
             if ev["kind"] == "crash" and nfail < 5:
                 nfail += 1
@@ -839,15 +1021,52 @@ def check_C10(chk):
                     bad = "the unlimited search did not stop by itself on the mate (reached depth %d)" % depths[-1]
                 elif d == 0:
                     stats["stopped_by_itself_on_mate"] += 1
-            if bad and nfail < 5:
+            if bad and cls:
+                # known finding C10-K1: the unique key is the quiet move the repetition filter removes
+                chk.violation(bad + " (%s)" % f, {"fen": f, "script": blk[1:], "answer": ev["best"], "class": cls, "kind": "spec-oracle failure on the implementation (known class)"})
+            elif bad and nfail < 5:
                 nfail += 1
                 chk.violation(bad + " (%s)" % f, {"fen": f, "script": blk[1:], "answer": ev["best"], "kind": "spec-oracle failure on the implementation"})
-    chk.cov["evaluations"] = len(blocks)
-    chk.cov["distinct_nontrivial"] = len(mate1) + len(mate2) + len(dead)
-    chk.cov["rule"] = ("%d generated positions (K+Q, K+R, two rooks, mixed; defending king biased to the edge); the extracted Rules.forced_mate_in finds the sane ones with a mate "
+    # (c) the same demand of the real binary inside a session: middlegame mates in two searched with `go depth 8` after an
+    # earlier timed search of another position that ended before its budget (nothing of that go may reach into this one)
+    sess = 0
+    if status.get("engine"):
+        import uci
+        bm = [["# u%d" % i, "specmate 2 | " + f] for i, f in enumerate(SESSION_MATES)]
+        rm = cached_run("mate-spec-session", SPECDRIVER, bm, "mate-session", timeout=900)
+        for i, f in enumerate(SESSION_MATES):
+            ls = rm.get("u%d" % i, [])
+            kv = parse_kv(ls[0])[1] if ls else {}
+            if kv.get("forced") != "1":
+                continue
+            keep = kv["keep"].split(",")
+            for ms in [None] + list(range(2, 26, 2 if chk.tier == "quick" else 1)):
+                prefix = [] if ms is None else ["ucinewgame", "position fen 6k1/5ppp/8/8/8/8/8/R3K3 w Q - 0 1", "go movetime %d" % ms, "wait", "ucinewgame"]
+                lines, ok, rc = uci.go_transcript("position fen " + f, "go depth 8", prefix=prefix, timeout=120)
+                sess += 1
+                best = next((l.split()[1] for l in lines if l.startswith("bestmove") and len(l.split()) > 1), "?")
+                scores = [int(l.split()[3]) for l in lines if l.startswith("info score cp ")]
+                bad = None
+                if not ok:
+                    bad = "go depth 8 did not produce a bestmove"
+                elif best not in keep:
+                    bad = "with a forced mate in two on the board go depth 8 played %s, which loses the mate (mating moves: %s)" % (best, ",".join(keep))
+                elif not scores or scores[-1] < 32767 - 1000:
+                    bad = "go depth 8 ended with score %s: the forced mate in two (within the horizon) was not reported" % (scores[-1] if scores else "none")
+                if bad and nfail < 5:
+                    nfail += 1
+                    chk.violation(bad + " (%s, session prefix %s)" % (f, prefix), {"fen": f, "session": prefix + ["position fen " + f, "go depth 8"], "answer": best, "output": lines[-8:],
+                                                                                    "kind": "spec-oracle failure on the implementation"})
+    stats["session_mate_searches"] = sess
+    chk.cov["evaluations"] = len(blocks) + sess
+    chk.cov["distinct_nontrivial"] = 2 * len(mate1) + len(mate2) + len(dead) + len(STALEMATES) + len(hist) + (len(SESSION_MATES) if sess else 0)
+    chk.cov["rule"] = ("(c) %d sessions of the real binary: five middlegame mates in two (keeping moves from the same solver) searched with go depth 8 from a fresh engine and after a timed go of "
+                       "another position that ended before its budget (budgets swept over 2..25 ms): the move must keep the mate and the last score must be a mate score. (a, b) " % sess) + (
+                       "%d generated positions (K+Q, K+R, two rooks, mixed; defending king biased to the edge); the extracted Rules.forced_mate_in finds the sane ones with a mate "
                        "in one or a forced mate in two and the moves that keep it, and the dead roots. The real code searches from a fresh table to depth 3, 4 and unlimited (mate in one), "
                        "5 and 6 (mate in two), and its move must be one of the keeping moves; the unlimited search must stop by itself; dead roots must give 'none'. "
-                       "Non-trivial: each mate / dead position.") % len(cands)
+                       "Non-trivial: each mate / dead position. (d) the unique-key mate-in-two endings at the end of game records a m b n a (validated by the rules) on which the root's "
+                       "repetition filter fires, m being the key or another move, and the two repaired mate-in-one records (the move of four plies ago is the only mate and repeats nothing).") % len(cands)
     chk.cov["input_distribution"] = stats
     if blocks:
         chk.cov["samples"] = [{"script": blocks[0], "expected_moves": expect[blocks[0][0][2:]][2], "implementation": impl.get(blocks[0][0][2:], [])[:12]}]
@@ -873,6 +1092,7 @@ def check_C19(chk):
         cases.append((pool[rng.below(len(pool))], 3 + rng.below(3)))
     prefixes = [
         [],
+        ["position startpos", "go infinite", "@sleep 300", "ucinewgame"],          # reset while a search is still running
         ["position startpos moves e2e4 e7e5", "go depth 4", "wait", "ucinewgame"],
         ["position fen 8/8/8/4k3/8/8/8/KQ6 w - - 0 1", "go depth 5", "wait", "position startpos", "go depth 3", "wait", "ucinewgame"],
         ["isready", "position startpos", "go movetime 40", "wait", "ucinewgame", "ucinewgame"],
